@@ -79,6 +79,24 @@ class Explorer:
             raise Budget("time budget exhausted")
 
     # ------------------------------------------------------------------ decisions
+    def add(self, *conds):
+        """add constraints to the current path (invalidates the cached model)"""
+        self.solver.add(*conds)
+        self.model = None
+
+    def _eval(self, cond):
+        if self.model is None:
+            return None
+        try:
+            v = self.model.eval(cond, model_completion=True)
+        except z3.Z3Exception:
+            return None
+        if z3.is_true(v):
+            return True
+        if z3.is_false(v):
+            return False
+        return None
+
     def decide(self, cond):
         """cond: z3 BoolRef. Returns the Python bool chosen for this path."""
         cond = z3.simplify(cond)
@@ -89,16 +107,28 @@ class Explorer:
         k = len(self.trace)
         if k < len(self.prefix):
             choice, other = self.prefix[k]
-            lit = cond if choice else z3.Not(cond)
-            if k == len(self.prefix) - 1 and self.flipped:
-                # the freshly flipped decision: its feasibility was established when the sibling ran
-                pass
             self.trace.append((choice, other))
-            self.solver.add(lit)
+            self.solver.add(cond if choice else z3.Not(cond))
+            if self._eval(cond) is not choice:
+                self.model = None
             return choice
         self.check_time()
-        rt = self._check(cond)
-        rf = self._check(z3.Not(cond))
+        # a cached model of the path condition settles one side without a query
+        guess = self._eval(cond)
+        mt = mf = None
+        if guess is True:
+            rt, mt = z3.sat, self.model
+            rf = self._check(z3.Not(cond))
+            mf = self.last_model
+        elif guess is False:
+            rf, mf = z3.sat, self.model
+            rt = self._check(cond)
+            mt = self.last_model
+        else:
+            rt = self._check(cond)
+            mt = self.last_model
+            rf = self._check(z3.Not(cond))
+            mf = self.last_model
         if rt == z3.unknown or rf == z3.unknown:
             raise Budget("solver returned unknown on a branch condition")
         if rt == z3.sat:
@@ -109,7 +139,13 @@ class Explorer:
             raise PathAbort()
         self.trace.append((choice, other))
         self.solver.add(cond if choice else z3.Not(cond))
+        self.model = mt if choice else mf
         return choice
+
+    def fresh(self, name, sort="int"):
+        """path-local fresh variable (deterministic name: replays see the same term)"""
+        self._fresh += 1
+        return z3.Int(f"__{name}{self._fresh}") if sort == "int" else z3.Bool(f"__{name}{self._fresh}")
 
     def assume(self, cond):
         if isinstance(cond, SBool):
@@ -121,6 +157,7 @@ class Explorer:
         self.solver.add(cond)
         if self._check() != z3.sat:
             raise PathAbort()
+        self.model = self.last_model
 
     def choose(self, x, values):
         """Concretise the z3 Int term x over the finite candidate list `values` (deterministic)."""
@@ -155,6 +192,8 @@ class Explorer:
                     status = "budget:max_paths"
                     break
                 self.prefix, self.trace, self.flipped = prefix, [], bool(prefix)
+                self._fresh = 0
+                self.model = None
                 self.solver = z3.Solver()
                 self.solver.set("timeout", self.solver_timeout_ms)
                 self.solver.add(*self.base)
@@ -547,6 +586,12 @@ class SStr:
 
     def index(self, sub, *a):
         r = self.find(sub, *a)
+        if r < 0:
+            raise ValueError("substring not found")
+        return r
+
+    def rindex(self, sub, *a):
+        r = self.rfind(sub, *a)
         if r < 0:
             raise ValueError("substring not found")
         return r
